@@ -166,7 +166,7 @@ E0 == [op |-> "init", cs |-> C0,
 (* fields: op    "enc" encode k then decode the produced text; "dec" decode a text; "cert" type/label/principals of a
                  certificate; "prins" principals for a given type; "shim" comment of a certificate listed by a shim agent
            k, sin        enc: the KeyID value and a tag of all its concrete contents
-           present       dec/enc: fields the (given / produced) text contains, exact names
+           present       dec/enc/cert/shim: fields the (given / produced / certificate's KeyID) text contains, exact names
            nil, opt, pin cert/shim: nil certificate, option class, principals of the certificate
            tyin, ocmt    prins: the type given; shim: the comment the certificate was added with
            pan           the call crashed
@@ -190,7 +190,8 @@ DecEv(c, t) == LET ok == DecodeOK(t) IN
              \* decoding is a function of the text: a repeated call gives what the first call gave
              !.rep = IF c.kind = "dec" THEN c.n ELSE 0, !.ok1 = ok, !.dk1 = IF ok THEN Decoded(t) ELSE ZeroK, !.s1 = IF ok THEN "s" ELSE ""]
 CertEv(c, decodes, k, o) == LET ty == TypeOf(FALSE, decodes, k, o) IN
-  [E0 EXCEPT !.op = "cert", !.cs = c, !.opt = o, !.pin = PinAbs, !.ok = decodes, !.dk = IF decodes THEN k ELSE ZeroK,
+  [E0 EXCEPT !.op = "cert", !.cs = c, !.opt = o, !.pin = PinAbs, !.ok = decodes,
+             !.present = IF c.kind = "cert" THEN Present(Encode(c.k)) ELSE {}, !.dk = IF decodes THEN k ELSE ZeroK,
              !.tid = IF decodes THEN "T" ELSE "", !.ty = ty, !.lok = ty # "Unknown",
              !.label = IF ty # "Unknown" THEN LabelOf(ty, "T") ELSE "", !.pout = PrincipalsOf(PinAbs, ty), !.pafter = PinAbs]
 
@@ -214,7 +215,7 @@ Ev(c) ==
     [] c.kind = "shim" -> LET d  == DecodeOK(Encode(c.k))
                               ty == TypeOf(FALSE, d, c.k, c.opt)
                               oc == IF c.cm = "some" THEN "c" ELSE "" IN
-         [E0 EXCEPT !.op = "shim", !.cs = c, !.opt = c.opt, !.ocmt = oc, !.ok = d, !.dk = IF d THEN c.k ELSE ZeroK,
+         [E0 EXCEPT !.op = "shim", !.cs = c, !.opt = c.opt, !.ocmt = oc, !.ok = d, !.present = Present(Encode(c.k)), !.dk = IF d THEN c.k ELSE ZeroK,
                     !.tid = IF d THEN "T" ELSE "", !.found = TRUE, !.cmt = ShimComment(ty, "T", oc)]
     [] OTHER -> E0
 
@@ -229,9 +230,13 @@ C05_Holds(e) ==
                      /\ e.rep > 0 => (e.ok = e.ok1 /\ e.dk = e.dk1 /\ e.sout = e.s1)
 
 \* ---- C19 on one event
+\* "Its KeyID decodes" is the specification's notion, not the decoder's word alone: the decoder accepted the text AND the value is
+\* of a supported version, the text contained the required fields and the value is consistent.  (On a decoder that satisfies
+\* C05 the two coincide; a decoder that lets an inconsistent KeyID through must not turn it into a known certificate type.)
+DecodesEv(e) == e.ok /\ Supported(e.dk.ver) /\ Required(e.dk.ver) \subseteq e.present /\ Consistent(e.dk)
 C19_Holds(e) ==
   /\ e.op \in {"cert", "prins", "shim"} => ~e.pan                        \* total
-  /\ e.op = "cert" => LET ty == TypeOf(e.nil, e.ok, e.dk, e.opt) IN
+  /\ e.op = "cert" => LET ty == TypeOf(e.nil, DecodesEv(e), e.dk, e.opt) IN
        /\ e.ty = ty
        /\ IF ty = "Unknown" THEN ~e.lok ELSE e.lok /\ e.label = LabelOf(ty, e.tid)
        /\ e.pout = PrincipalsOf(e.pin, ty)
@@ -240,7 +245,7 @@ C19_Holds(e) ==
                        /\ e.pafter = e.pin
                        /\ e.rep > 0 => e.pfirst2 = e.pfirst                \* a later call does not change an earlier result
   /\ e.op = "shim" => /\ e.found
-                      /\ e.cmt = ShimComment(TypeOf(FALSE, e.ok, e.dk, e.opt), e.tid, e.ocmt)
+                      /\ e.cmt = ShimComment(TypeOf(FALSE, DecodesEv(e), e.dk, e.opt), e.tid, e.ocmt)
 
 \* strict conformance with the precise design (the event of a replayed case has the design's verdicts and values)
 StrictEv(e) ==
@@ -303,6 +308,13 @@ Thm_OnlyStated  == \A k1 \in KeyIDs, k2 \in KeyIDs :
 Thm_EmptyIsAbsent == \A k \in KeyIDs : TypeOfK(k, "empty") = TypeOfK(k, "absent")
 Thm_UnknownIff  == \A k \in KeyIDs, o \in Opts :
                      TypeOfK(k, o) = "Unknown" <=> (~k.nonce /\ ~k.ff /\ k.tp \notin {NeverTouch, AlwaysTouch, CachedTouch})
+\* a KeyID of an unsupported version or with conflicting attributes (nonce or headless with ANY touch policy other than
+\* never-touch, inside or outside the defined range, ...) is of unknown type whatever the other attributes say
+Thm_InconsistentUnknown == \A k \in KeyIDs \ Encodable, o \in Opts :
+                     /\ TypeOf(FALSE, DecodeOK(Encode(k)), k, o) = "Unknown"
+                     /\ Ev(Cs("cert", k, "", "", 0, o, "", "", 0, "", "")).ty = "Unknown"
+                     /\ Ev(Cs("cert", k, "", "", 0, o, "", "", 0, "", "")).pout = <<>>
+Thm_NonceHeadlessTouch == \A k \in KeyIDs : ((k.nonce \/ k.hl) /\ k.tp # NeverTouch) => ~Consistent(k)
 Thm_Precedence  == \A k \in KeyIDs, o \in Opts :
                      /\ k.nonce => TypeOfK(k, o) = "Nonce"
                      /\ (k.ff /\ ~k.nonce) => TypeOfK(k, o) \in {"Firefighter", "TouchlessInAgent", "TouchlessSudoInAgent"}
